@@ -4,15 +4,20 @@ import (
 	"fmt"
 	"go/token"
 	"go/types"
+	"os"
 	"runtime/debug"
 	"sort"
 	"strings"
 	"sync"
 
+	"github.com/lucasjones/reggen"
 	"golang.org/x/tools/go/ssa"
 
 	"verif/sym"
 )
+
+var traceFn = os.Getenv("SYMGO_TRACE")
+var Debug = os.Getenv("SYMGO_DEBUG") != ""
 
 // World is the immutable, shared part: the SSA program and caches.
 type World struct {
@@ -144,6 +149,10 @@ type Interp struct {
 	side     map[string]Value
 	onceDone map[*Value]bool
 	inInit   int
+	ptrIDs   map[*Value]int
+	reggens  map[*Value]*reggen.Generator
+	RealFS   bool
+	abortSite string
 	initForce bool
 	initDone map[*ssa.Package]bool
 	Notes    map[string]int // imprecision notes (stub names used etc.)
@@ -191,6 +200,13 @@ func NewWorld(prog *ssa.Program, fset *token.FileSet) *World {
 		}
 	}
 	return w
+}
+
+func (w *World) utf8Decode() *ssa.Function {
+	if p := w.Prog.ImportedPackage("unicode/utf8"); p != nil {
+		return p.Func("DecodeRuneInString")
+	}
+	return nil
 }
 
 func (w *World) info(fn *ssa.Function) *fnInfo {
@@ -241,6 +257,7 @@ func NewInterp(w *World, cfg *Config, inputs map[string]uint64) *Interp {
 }
 
 func (in *Interp) abort(st Status, format string, a ...interface{}) {
+	in.abortSite = strings.Join(in.stack(), " < ")
 	panic(abortRun{st, fmt.Sprintf(format, a...)})
 }
 
@@ -311,6 +328,9 @@ func (in *Interp) concretize(v Sc, w uint8, tag string) uint64 {
 		return v.C
 	}
 	cv := in.St.Const(w, v.C)
+	if Debug {
+		tag += "@" + in.site()
+	}
 	in.Trace = append(in.Trace, Record{Lit: in.St.Eq(v.T, cv), Kind: RecConcretize, X: v.T, Val: v.C, Tag: tag})
 	return v.C
 }
@@ -408,7 +428,7 @@ func (in *Interp) Run(fn *ssa.Function, args []Value) (res *RunResult) {
 			case abortRun:
 				res.Status = r.st
 				res.Msg = r.msg
-				res.Site = in.site()
+				res.Site = in.abortSite
 				if r.st == StAssertFail {
 					res.AssertID = r.msg
 				}
@@ -607,6 +627,9 @@ func (fr *frame) run() {
 			if fr.in.Steps > fr.in.Cfg.MaxSteps {
 				fr.in.abort(StBudget, "step budget %d exceeded", fr.in.Cfg.MaxSteps)
 			}
+			if traceFn != "" && strings.Contains(fr.fn.String(), traceFn) {
+				fmt.Printf("TRACE %s: %s\n", fr.fn.Name(), ins)
+			}
 			switch fr.visit(ins) {
 			case kReturn:
 				fr.block = nil
@@ -750,7 +773,7 @@ func (fr *frame) visit(ins ssa.Instruction) cont {
 		if p == nil {
 			in.rtPanic("invalid memory address or nil pointer dereference")
 		}
-		*p = copyVal(fr.get(ins.Val))
+		assign(p, fr.get(ins.Val))
 	case *ssa.If:
 		c := fr.get(ins.Cond).(Sc)
 		succ := 1
@@ -810,15 +833,36 @@ func (fr *frame) visit(ins ssa.Instruction) cont {
 		default:
 			panic(fmt.Sprintf("IndexAddr on %T", x))
 		}
-		i := in.indexArg(fr.get(ins.Index), ins.Index.Type(), len(elems))
+		idxV := fr.get(ins.Index)
+		if sc, ok := idxV.(Sc); ok && sc.T != nil && !sc.T.IsConst() && onlyLoads(ins) {
+			if v, ok := in.symTableRead(elems, sc, ins.Index.Type(), ins.Type().(*types.Pointer).Elem()); ok {
+				cell := new(Value)
+				*cell = v
+				fr.set(ins, cell)
+				break
+			}
+		}
+		i := in.indexArg(idxV, ins.Index.Type(), len(elems))
 		fr.set(ins, &elems[i])
 	case *ssa.Index:
 		x := fr.get(ins.X)
 		switch x := x.(type) {
 		case Array:
+			if sc, ok := fr.get(ins.Index).(Sc); ok && sc.T != nil && !sc.T.IsConst() {
+				if v, ok := in.symTableRead([]Value(x), sc, ins.Index.Type(), ins.Type()); ok {
+					fr.set(ins, v)
+					break
+				}
+			}
 			i := in.indexArg(fr.get(ins.Index), ins.Index.Type(), len(x))
 			fr.set(ins, x[i])
 		case Str:
+			if sc, ok := fr.get(ins.Index).(Sc); ok && sc.T != nil && !sc.T.IsConst() && x.T == nil {
+				if v, ok := in.symTableRead(bytesFromStr(x), sc, ins.Index.Type(), ins.Type()); ok {
+					fr.set(ins, v)
+					break
+				}
+			}
 			i := in.indexArg(fr.get(ins.Index), ins.Index.Type(), x.Len())
 			fr.set(ins, x.ByteAt(i))
 		default:
@@ -841,11 +885,30 @@ func (fr *frame) visit(ins ssa.Instruction) cont {
 		}
 		fr.set(ins, &Closure{Fn: ins.Fn.(*ssa.Function), Env: env})
 	case *ssa.Phi:
-		for i, pred := range ins.Block().Preds {
+		// all phis of a block are evaluated simultaneously (on entry, at the first phi)
+		b := ins.Block()
+		if b.Instrs[0] != ssa.Instruction(ins) {
+			break // already assigned together with the first phi
+		}
+		pi := -1
+		for i, pred := range b.Preds {
 			if pred == fr.prev {
-				fr.set(ins, fr.get(ins.Edges[i]))
+				pi = i
 				break
 			}
+		}
+		var vals []Value
+		var phis []*ssa.Phi
+		for _, x := range b.Instrs {
+			p, ok := x.(*ssa.Phi)
+			if !ok {
+				break
+			}
+			phis = append(phis, p)
+			vals = append(vals, fr.get(p.Edges[pi]))
+		}
+		for i, p := range phis {
+			fr.set(p, vals[i])
 		}
 	default:
 		in.unsupported("instruction %T", ins)
@@ -971,4 +1034,94 @@ func SortedFnNames(m map[*ssa.Function]int) []string {
 	}
 	sort.Strings(out)
 	return out
+}
+
+func onlyLoads(ins *ssa.IndexAddr) bool {
+	refs := ins.Referrers()
+	if refs == nil || len(*refs) == 0 {
+		return false
+	}
+	for _, r := range *refs {
+		u, ok := r.(*ssa.UnOp)
+		if !ok || u.Op != token.MUL || u.Block() != ins.Block() {
+			if _, isDbg := r.(*ssa.DebugRef); isDbg {
+				continue
+			}
+			return false
+		}
+	}
+	return true
+}
+
+// symTableRead reads elems[idx] for a symbolic idx when all elements are
+// concrete scalars with few distinct values: the result is one ite term
+// (grouped by value) instead of an enumeration of idx. The bounds check is
+// recorded as usual.
+func (in *Interp) symTableRead(elems []Value, idx Sc, it types.Type, et types.Type) (Value, bool) {
+	n := len(elems)
+	if n == 0 || n > 512 {
+		return nil, false
+	}
+	ek, isSc := basicKind(et)
+	if !isSc || ek.isBool {
+		return nil, false
+	}
+	groups := map[uint64][]int{}
+	var order []uint64
+	for i, e := range elems {
+		sc, ok := e.(Sc)
+		if !ok || sc.T != nil {
+			return nil, false
+		}
+		if _, seen := groups[sc.C]; !seen {
+			order = append(order, sc.C)
+			if len(order) > 24 {
+				return nil, false
+			}
+		}
+		groups[sc.C] = append(groups[sc.C], i)
+	}
+	k, _ := basicKind(it)
+	x64 := in.St.Resize(idx.T, 64, k.signed)
+	// bounds check
+	var okT *sym.Term
+	if k.signed {
+		okT = in.St.And(in.St.Cmp(sym.OpSle, in.St.Const(64, 0), x64), in.St.Cmp(sym.OpSlt, x64, in.St.Const(64, uint64(n))))
+	} else {
+		okT = in.St.Cmp(sym.OpUlt, x64, in.St.Const(64, uint64(n)))
+	}
+	var cok bool
+	if k.signed {
+		cok = int64(idx.C) >= 0 && int64(idx.C) < int64(n)
+	} else {
+		cok = idx.C < uint64(n)
+	}
+	if !in.branch(Sc{C: b2u(cok), T: okT}, RecCheck, "index") {
+		in.rtPanic(fmt.Sprintf("index out of range [%d] with length %d", int64(idx.C), n))
+	}
+	w := ek.bits
+	// sort groups by size ascending, the largest group becomes the default
+	sort.Slice(order, func(a, b int) bool { return len(groups[order[a]]) < len(groups[order[b]]) })
+	def := order[len(order)-1]
+	t := in.St.Const(w, def)
+	for gi := len(order) - 2; gi >= 0; gi-- {
+		v := order[gi]
+		var alts []*sym.Term
+		// compress consecutive indices into ranges
+		idxs := groups[v]
+		for a := 0; a < len(idxs); {
+			b := a
+			for b+1 < len(idxs) && idxs[b+1] == idxs[b]+1 {
+				b++
+			}
+			if a == b {
+				alts = append(alts, in.St.Eq(x64, in.St.Const(64, uint64(idxs[a]))))
+			} else {
+				alts = append(alts, in.St.And(in.St.Cmp(sym.OpUle, in.St.Const(64, uint64(idxs[a])), x64), in.St.Cmp(sym.OpUle, x64, in.St.Const(64, uint64(idxs[b])))))
+			}
+			a = b + 1
+		}
+		t = in.St.Ite(in.St.Or(alts...), in.St.Const(w, v), t)
+	}
+	return Sc{C: elems[idx.C].(Sc).C, T: t}, true
 }
